@@ -91,13 +91,9 @@ func (tr *FnTr) loadFrom(m, alloc, obj, off *Term, T types.Type, base string, as
 	if lay.N() > 4096 {
 		tr.unsupported("load of %d-cell value %s", lay.N(), T)
 	}
-	arr := Select(m, obj)
-	if lay.N() > 1 {
-		arr = tr.vc.Def(base+"_arr", arr)
-	}
 	v := Val{T: T, L: make([]*Term, lay.N())}
 	for i, lf := range lay.Leaves {
-		c := Select(arr, Add(off, Int(int64(i))))
+		c := readCell(m, obj, Add(off, Int(int64(i))), leafTag(lf))
 		nm := base
 		if lay.N() > 1 {
 			nm = fmt.Sprintf("%s_%d", base, i)
@@ -120,6 +116,7 @@ func storeTo(m, obj, off *Term, v Val) *Term {
 	arr := Select(m, obj)
 	for i, lf := range lay.Leaves {
 		arr = Store(arr, Add(off, Int(int64(i))), cellOfLeaf(lf, v.L[i]))
+		arr.Name = leafTag(lf)
 	}
 	return Store(m, obj, arr)
 }
@@ -659,6 +656,15 @@ func (tr *FnTr) arith(op token.Token, a, b *Term, bt *types.Basic, p token.Pos) 
 	case token.ADD:
 		return tr.finish(Add(a, b), bt, p, true)
 	case token.SUB:
+		if z := a.IntConst(); z != nil && z.Sign() == 0 && !signed {
+			// -x for x in {0,1}: 0 or all ones
+			if k := tr.kbOf(b, bt); k.hi <= 1 {
+				_, hi := intRange(bt)
+				r := Ite(Eq(b, Int(0)), Int(0), IntB(hi))
+				tr.eng.negBit[r.Key()] = b
+				return r
+			}
+		}
 		return tr.finish(Sub(a, b), bt, p, true)
 	case token.MUL:
 		return tr.finish(tr.mulTerm(a, b), bt, p, true)
@@ -750,6 +756,12 @@ func (tr *FnTr) bitAnd(a, b *Term, bt *types.Basic) *Term {
 	}
 	if x, y := a.IntConst(), b.IntConst(); x != nil && y != nil && x.Sign() >= 0 && y.Sign() >= 0 {
 		return IntB(new(big.Int).And(x, y))
+	}
+	if c := b.IntConst(); c != nil && c.Sign() >= 0 {
+		if z, ok := tr.eng.negBit[a.Key()]; ok {
+			// (0 or all-ones) & C
+			return Ite(Eq(z, Int(0)), Int(0), IntB(c))
+		}
 	}
 	if c := b.IntConst(); c != nil {
 		m := new(big.Int).Set(c)
